@@ -305,8 +305,10 @@ def cut_faults(case, every=1):
                    sig=("cut", case.t, case.cc, cut, n))
 
 
-def suffix_faults(case, rng):
-    for k in (1, 2, 4):
+def suffix_faults(case, rng, long=True):
+    # short suffixes, and (for a third of the inputs) ones around and beyond 64 / 256 bytes
+    ks = (1, 2, 4) + ((rng.choice((63, 64)), 65, rng.choice((255, 256, 257, 300, 1000))) if long and rng.random() < 0.34 else ())
+    for k in ks:
         suf = bytes(rng.randrange(256) for _ in range(k))
         yield Case(case.t, case.d + suf, case.cc, case.enc, origin=case.origin, fault=dict(kind="suffix", bytes=suf.hex()),
                    sig=("suffix", case.t, case.cc, k, len(case.d)))
